@@ -7,15 +7,31 @@ def runC20 (op : String) (j : Json) : R Json := do
   match op with
   | "download" =>
     let prior ← asOptNat' j "prior"
-    let ds ← getNats j "ds"; let ss ← getNats j "ss"
+    let ds ← getNats j "ds"
     let dsc := ds.map fun d => if d == 0 then DataResp.httpError else DataResp.body d
-    let ssc := ss.map fun s => if s == 0 then SumResp.missing else SumResp.avail s
+    -- the checksum script: either tokens (`ss`), or what the server really sends (`answers`: null = non-200,
+    -- else the code points of the text) parsed by the model of `text.split()[0]` (`render`: [token, hexdigest])
+    let ssc ← if hasFld j "answers" then do
+        let answers ← fld j "answers" >>= asList (asOpt (asList asNat))
+        let render ← fld j "render" >>= asList (fun r => do
+          let a ← asArr r
+          match a with
+          | [t, d] => do pure ((← asNat t), (← asList asNat d))
+          | _ => .error "render: [token, code points] expected")
+        let other ← getNat j "other"
+        pure (answers.map fun a => parseSum render other (match a with
+          | none => SumAnswer.error | some t => SumAnswer.text t))
+      else do
+        let ss ← getNats j "ss"
+        pure (ss.map fun s => if s == 0 then SumResp.missing else SumResp.avail s)
     let r := download id (start prior dsc ssc)
     let res := match r.2 with
       | .skipped => "skipped" | .done => "done" | .httpError => "http_error" | .mismatch => "mismatch"
     pure (Json.mkObj [("result", Json.str res), ("file", jOpt jNat r.1.file),
                       ("log", jList (fun (q : Req × Option SumResp) =>
                           Json.str (match q.1 with | .data => "data" | .sum => "sum")) r.1.log),
+                      ("ss", jList (fun (q : SumResp) => match q with
+                          | .avail h => jNat h | .missing => jNat 0) ssc),
                       ("last_sum", match lastSum r.1.log with
                           | some (.avail h) => jNat h
                           | _ => Json.null)])
